@@ -480,7 +480,10 @@ class CodecsFacade:
             if not name.is_concrete():
                 raise Unsupported('codecs.lookup of a symbolic encoding name')
             name = name.concrete()
-        return _codecs.lookup(name)
+        info = _codecs.lookup(name)
+        if active() and self._modelled(name):
+            return _ModelInfo(info, name, self)
+        return info
 
     def getdecoder(self, encoding):
         real = _codecs.getdecoder(encoding)
@@ -517,6 +520,27 @@ class CodecsFacade:
         if active() and self._modelled(encoding):
             return lambda errors='strict': ModelIncrementalEncoder(encoding, errors)
         return _codecs.getincrementalencoder(encoding)
+
+
+class _ModelInfo:
+    """CodecInfo whose incremental coders accept symbolic data"""
+
+    def __init__(self, info, name, facade):
+        self._info = info
+        self._name = name
+        self.incrementalencoder = facade.getincrementalencoder(name)
+        self.incrementaldecoder = facade.getincrementaldecoder(name)
+        self.encode = facade.getencoder(name)
+        self.decode = facade.getdecoder(name)
+
+    def __getattr__(self, k):
+        return getattr(self._info, k)
+
+    def __getitem__(self, i):
+        return (self.encode, self.decode, self._info.streamreader, self._info.streamwriter)[i]
+
+    def __iter__(self):
+        return iter((self.encode, self.decode, self._info.streamreader, self._info.streamwriter))
 
 
 codecs_facade = CodecsFacade()
